@@ -122,7 +122,9 @@ type sendFileStore struct {
 }
 
 // sameFS reports whether two file systems are the same value. Unlike ==, it does not panic
-// when the dynamic type cannot be compared (a map such as fstest.MapFS, a slice, a func).
+// when the dynamic type cannot be compared (a map such as fstest.MapFS, a slice, a struct
+// holding one of them, a func): maps and slices are told apart by identity, everything
+// else that cannot be compared is never "the same" (see cacheableFS).
 func sameFS(a, b fs.FS) bool {
 	va, vb := reflect.ValueOf(a), reflect.ValueOf(b)
 	if !va.IsValid() || !vb.IsValid() {
@@ -134,14 +136,21 @@ func sameFS(a, b fs.FS) bool {
 	if va.Comparable() {
 		return a == b
 	}
-	switch va.Kind() { //nolint:exhaustive // only reference kinds can be told apart by their pointer
-	case reflect.Map, reflect.Func:
+	switch va.Kind() { //nolint:exhaustive // only maps and slices can be told apart by their pointer
+	case reflect.Map:
 		return va.Pointer() == vb.Pointer()
 	case reflect.Slice:
 		return va.Pointer() == vb.Pointer() && va.Len() == vb.Len()
 	default:
 		return false
 	}
+}
+
+// cacheableFS reports whether sameFS can recognise fsys again: a handler for a file system
+// that never compares equal to itself (funcs share their code pointer between closures,
+// structs with uncomparable fields) must not be kept, the list would grow with every call.
+func cacheableFS(fsys fs.FS) bool {
+	return sameFS(fsys, fsys)
 }
 
 // compareConfig compares the current SendFile config with the new one
@@ -1664,9 +1673,11 @@ func (c *DefaultCtx) SendFile(file string, config ...SendFile) error {
 		fsHandler = sf.handler
 		cacheControlValue = sf.cacheControlValue
 
-		c.app.sendfilesMutex.Lock()
-		c.app.sendfiles = append(c.app.sendfiles, sf)
-		c.app.sendfilesMutex.Unlock()
+		if cacheableFS(cfg.FS) {
+			c.app.sendfilesMutex.Lock()
+			c.app.sendfiles = append(c.app.sendfiles, sf)
+			c.app.sendfilesMutex.Unlock()
+		}
 	}
 
 	// Keep original path for mutable params
